@@ -1,0 +1,16 @@
+//! Verification hooks (feature `verif-hooks`).
+//!
+//! Read-only access paths into otherwise private parts of the crate, used by
+//! out-of-tree exhaustive-exploration harnesses. Nothing in here is used by
+//! the library itself.
+
+/// Direct access to the HPACK encoder / decoder and the Huffman codec.
+pub mod hpack {
+    pub use crate::hpack::huffman::{decode as huffman_decode, encode as huffman_encode};
+    pub use crate::hpack::{BytesStr, Decoder, DecoderError, Encoder, Header, NeedMore};
+
+    /// `(name, value)` octets of a decoded header.
+    pub fn header_octets(h: &Header) -> (Vec<u8>, Vec<u8>) {
+        (h.name().as_slice().to_vec(), h.value_slice().to_vec())
+    }
+}
